@@ -64,10 +64,13 @@ NextProps ==
 
 \* what the harness can observe of one call
 Observations(op) ==
-  IF op.k = "set" THEN {<<r, FALSE, c>> : r \in {"ok", "Error"}, c \in BOOLEAN}
+  IF op.k \in {"set", "get"} THEN {<<r, FALSE, c>> : r \in {"ok", "Error"}, c \in BOOLEAN}
   ELSE IF op.k = "str" THEN {<<"ok", FALSE, FALSE>>, <<"ok", TRUE, FALSE>>, <<"Error", FALSE, FALSE>>}
   ELSE {<<"ok", FALSE, FALSE>>, <<"Error", FALSE, FALSE>>}
-Matching(s, op, ob) == {o \in Step(s, op) : o.res = ob[1] /\ o.mark = ob[2] /\ o.chg = ob[3]}
+\* (as in TraceFields: a Get outcome that replaced the stored object needs that observation;
+\*  one that did not matches either way -- re-storing an equal decoded object is not a change)
+Matching(s, op, ob) == {o \in Step(s, op) : /\ o.res = ob[1] /\ o.mark = ob[2]
+                                            /\ IF op.k = "get" THEN o.chg => ob[3] ELSE o.chg = ob[3]}
 NextEquiv ==
   \E op \in C18Ops(fld, "orig") : \E ob \in Observations(op) :
      /\ alive' = UNION {{o.st : o \in Matching(s, op, ob)} : s \in alive}
@@ -101,15 +104,19 @@ ASSUME CatalogueOK
 (* C18, declaratively, on a history of calls on ONE field of the original line.
    Eff(h, j): the last assignment before call j that replaced the value (0: the
    initial, valid value).  An invalid value is "reported" by a failing
-   Get / Write / ValidateField / Validate / Str or by a marked Str.            *)
+   Get / Write / ValidateField / Validate / Str or by a marked Str.
+   Poss(h, lvl, j): the value classes the field may hold before call j given
+   everything observed so far ({} = some earlier call contradicted the
+   statement).  More than one class is possible only at level 0, after a Get
+   replaced an invalid encoded value by the decoded object.                    *)
 OnOrig(h) == \A j \in DOMAIN h : h[j].op.t = "orig" /\ h[j].op.k \in ReadKinds \cup {"set"}
 Eff(h, j) == LET S == {i \in 1..(j - 1) : h[i].op.k = "set" /\ h[i].chg} IN
              IF S = {} THEN 0 ELSE CHOOSE i \in S : \A k \in S : k <= i
-CurCls(h, j) == IF Eff(h, j) = 0 THEN "valid" ELSE h[Eff(h, j)].op.c
 RepEvent(e) == e.op.k \in ReadKinds /\ (e.res = "Error" \/ e.mark)
 ReportedBefore(h, j) == \E k \in (Eff(h, j) + 1)..(j - 1) : RepEvent(h[k])
-DeclAt(h, lvl, j) ==
-  LET e == h[j]  cur == CurCls(h, j) IN
+\* is call j consistent with the statement if the field holds a value of class cur?
+CallOK(h, lvl, j, cur) ==
+  LET e == h[j] IN
   IF e.op.k = "set" THEN
      IF e.op.c = "valid" THEN e.res = "ok" /\ e.chg                          \* never rejected
      ELSE IF lvl = 3 THEN e.res = "Error" /\ ~e.chg                          \* at the assignment
@@ -118,8 +125,19 @@ DeclAt(h, lvl, j) ==
   ELSE IF e.op.k \in {"validate", "vfield"} THEN e.res = "Error"             \* every level
   ELSE IF e.op.k \in {"write", "str"} THEN
        (lvl >= 2 /\ ~ReportedBefore(h, j)) => (e.res = "Error" \/ e.mark)    \* no later than the write
-  ELSE TRUE
-Decl(h, lvl) == \A j \in DOMAIN h : DeclAt(h, lvl, j)
+  ELSE TRUE                                                                  \* get
+RECURSIVE Poss(_, _, _)
+Poss(h, lvl, j) ==
+  IF j = 1 THEN {"valid"}
+  ELSE LET e == h[j - 1]
+           Q == {c \in Poss(h, lvl, j - 1) : CallOK(h, lvl, j - 1, c)} IN
+       IF Q = {} THEN {}
+       ELSE IF e.op.k = "set" THEN (IF e.chg THEN {e.op.c} ELSE Q)
+       ELSE IF e.op.k = "get" /\ e.chg /\ e.res = "ok" THEN
+            \* the stored object was replaced by the read
+            (IF lvl = 0 THEN Q \cup {"valid"} ELSE Q)
+       ELSE Q
+Decl(h, lvl) == Poss(h, lvl, Len(h) + 1) # {}
 
 \* every behaviour of the machine satisfies the declarative statement
 DeclHolds == (Mode = "props" /\ OnOrig(hist)) => Decl(hist, Lvl)
